@@ -162,14 +162,17 @@ def registers(address_size, register_size, default):
                  clause="an aborted transaction changes nothing (nothing changes unless a transaction has just completed)")
         c.ensure("idle_and_stalled_flags", z3.And((O["o_idle"] == 1) == (P.gs == IDLE), (O["o_stalled"] == 1) == (P.gs == WAIT)),
                  clause="(status) idle / stalled")
-        c.cover("write_register1_nonzero", z3.And(wr(1), P.rx != 0))
-        c.cover("write_sfr6", wr(6))
-        c.cover("read_register2", rd(2))
-        c.cover("read_unassigned_returns_default_bit", z3.And(P.gs == DATA, addr == 3, P.n == 1, P.rv == dflt))
-        c.cover("abort_in_data_phase", z3.And(P.abort, P.gs == DATA, P.n == W - 1, P.is_write))
-        c.cover("read_back_written_value", z3.And(P.gs == DATA, addr == 1, P.rv != 0, P.n == W - 1))
-        c.cover_depth = 2 * (C + W) + 12 + 2 * (C + W) + 10
-        c.bmc_depth = max(c.bmc_depth, 2 * (C + W) + 14)
+        one = 2 * (C + W) + 12                       # cycles needed for one complete transaction (2 cycles per sck period at least)
+        r1c, r2c = one <= 80, 2 * one <= 80
+        c.cover("write_register1_nonzero", z3.And(wr(1), P.rx != 0), reach=r1c)
+        c.cover("write_sfr6", wr(6), reach=r1c)
+        c.cover("read_register2", rd(2), reach=r1c)
+        c.cover("read_unassigned_returns_default_bit", z3.And(P.gs == DATA, addr == 3, P.n == 1, P.rv == dflt), reach=r1c)
+        c.cover("abort_in_data_phase", z3.And(P.abort, P.gs == DATA, P.n == W - 1, P.is_write), reach=r1c)
+        c.cover("read_back_written_value", z3.And(P.gs == DATA, addr == 1, P.rv != 0, P.n == W - 1), reach=r2c)
+        c.cover("command_phase", z3.And(P.gs == CMD, P.n == 1))
+        c.cover_depth = min(2 * one, 80) if r2c else (one if r1c else 12)
+        c.bmc_depth = max(c.bmc_depth, min(one + 2, 80))
     return contract
 
 
@@ -192,9 +195,11 @@ def command(command_size, word_size):
         c.ensure("word_received_frame", z3.Implies(z3.Not(P.complete), c.nx(O["o_word_received"]) == O["o_word_received"]), clause="an aborted transaction changes nothing")
         c.ensure("command_frame", z3.Implies(z3.Not(P.cmd_complete), c.nx(O["o_command"]) == O["o_command"]), clause="(frame) command changes only when a command completes")
         c.ensure("idle_and_stalled_flags", z3.And((O["o_idle"] == 1) == (P.gs == IDLE), (O["o_stalled"] == 1) == (P.gs == WAIT)), clause="(status)")
-        c.cover("transaction_completed_nonzero", z3.And(P.done == 1, P.rx != 0, P.cmd != 0))
+        one = 2 * (C + W) + 12
+        r1c = one <= 80
+        c.cover("transaction_completed_nonzero", z3.And(P.done == 1, P.rx != 0, P.cmd != 0), reach=r1c)
         c.cover("abort_in_command", z3.And(P.abort, P.gs == CMD, P.n != 0))
-        c.cover_depth = 2 * (C + W) + 12
+        c.cover_depth = one if r1c else 12
     return contract
 
 
